@@ -50,6 +50,31 @@ type Store struct {
 	directory string
 	// Function to handle command read from AOF log after restore.
 	handleCommand func(database int, command []byte)
+	// Number of the rewrite whose preamble this log continues (0: no rewrite has numbered the log yet).
+	generation uint64
+}
+
+// SetGeneration tells the store which preamble it continues: the number is written at the top of the
+// log when it is truncated and compared with the number found there when the log is restored.
+func (store *Store) SetGeneration(generation uint64) {
+	store.mut.Lock()
+	defer store.mut.Unlock()
+	store.generation = generation
+}
+
+// generationMarker is the record at the top of a log that continues the preamble of the given rewrite.
+func generationMarker(generation uint64) []byte {
+	number := strconv.FormatUint(generation, 10)
+	return []byte(fmt.Sprintf("*2\r\n$10\r\nGENERATION\r\n$%d\r\n%s\r\n", len(number), number))
+}
+
+// generationOf reads the number out of a generation marker; any other value belongs to generation 0.
+func generationOf(value resp.Value) uint64 {
+	if a := value.Array(); len(a) == 2 && strings.EqualFold(a[0].String(), "generation") {
+		generation, _ := strconv.ParseUint(a[1].String(), 10, 64)
+		return generation
+	}
+	return 0
 }
 
 func WithClock(clock clock.Clock) func(store *Store) {
@@ -195,6 +220,16 @@ func (store *Store) Restore() error {
 		return fmt.Errorf("restore aof: %v", err)
 	}
 
+	// A log older than the restored preamble was kept by a crash between the replacement of the
+	// preamble and the truncation of the log: the preamble covers all of it. Finish the truncation
+	// instead of replaying the log on top of the preamble.
+	if first, _, _ := resp.NewReader(store.rw).ReadValue(); generationOf(first) < store.generation {
+		return store.truncate()
+	}
+	if _, err := store.rw.Seek(0, 0); err != nil {
+		return fmt.Errorf("restore aof: %v", err)
+	}
+
 	r := resp.NewReader(store.rw)
 	database := 0
 	// End of the last complete record.
@@ -234,6 +269,9 @@ func (store *Store) Restore() error {
 			// Not a command (a bare string or number, an empty array): nothing to replay.
 			continue
 		}
+		if strings.EqualFold(cmd[0], "generation") {
+			continue
+		}
 		// If the command is a SELECT command, set the database value.
 		if strings.EqualFold(cmd[0], "select") {
 			if len(cmd) < 2 {
@@ -257,7 +295,10 @@ func (store *Store) Restore() error {
 func (store *Store) Truncate() error {
 	store.mut.Lock()
 	defer store.mut.Unlock()
+	return store.truncate()
+}
 
+func (store *Store) truncate() error {
 	verifPoint("log.trunc.begin")
 	if err := store.rw.Truncate(0); err != nil {
 		return fmt.Errorf("truncate: truncate error: %+v", err)
@@ -269,6 +310,12 @@ func (store *Store) Truncate() error {
 		return fmt.Errorf("truncate: seek error: %+v", err)
 	}
 
+	// The log continues the preamble of the rewrite with this number.
+	if store.generation > 0 {
+		if _, err := store.rw.Write(generationMarker(store.generation)); err != nil {
+			return fmt.Errorf("truncate: log generation error: %+v", err)
+		}
+	}
 	// Add command to select the current database at the top of the file.
 	// Nothing has been logged yet when the index is negative: the first write adds its own marker.
 	if store.currentDatabase >= 0 {
